@@ -153,6 +153,21 @@ func genCase(t *rapid.T) Case {
 			e = "(" + p1 + " | " + rapid.SampledFrom([]string{"@json", "to_json", "to_yaml", "@yaml", "to_props", "to_xml", "keys", "to_entries", "with_entries(.)", "[..]", "pick([\"a\"])", "omit([\"a\"])", "unique", "unique_by(.)", "group_by(.a)", "sort_by(.a)", "flatten", "reverse", "any", "contains({\"a\": 1})", "has(\"a\")", "length", "map(.)", "sort", "[.[]]", "{\"k\": .}", ".[] as $v | $v", "tojson"[:0] + "to_json(0)", "@base64", "select(.a)", "to_entries | from_entries", ".a // .b", "[.a, .b] | flatten"}).Draw(t, "afn") + ")"
 		}
 		c.Gen = "alias_doc"
+	} else if dk == 9 {
+		// entry lists, complete and incomplete (key without value, name/k/v spellings), for the *_entries family
+		var ents []string
+		for i := rapid.IntRange(1, 4).Draw(t, "nent"); i > 0; i-- {
+			k := rapid.SampledFrom([]string{"a", "b", "c", "0", "true"}).Draw(t, "ek")
+			ents = append(ents, rapid.SampledFrom([]string{
+				`{"key": "%s", "value": 1}`, `{"key": "%s"}`, `{"name": "%s", "value": [1]}`, `{"k": "%s", "v": 2}`, `{"key": "%s", "value": null}`, `{"value": 3}`, `{"key": "%s", "value": {"n": 1}, "extra": true}`, `{"Key": "%s", "Value": 4}`, `"%s"`, `{}`,
+			}).Draw(t, "eshape"))
+			if strings.Contains(ents[len(ents)-1], "%s") {
+				ents[len(ents)-1] = strings.Replace(ents[len(ents)-1], "%s", k, 1)
+			}
+		}
+		c.Doc, c.In = `{"e": [`+strings.Join(ents, ", ")+`], "m": {"a": 1, "b": {"c": 2}}}`, "json"
+		e = rapid.SampledFrom([]string{".e | from_entries", ".e | from_entries | keys", ".m | to_entries", ".m | with_entries(.)", ".e | map(select(has(\"value\"))) | from_entries", ".e | with_entries(.)", ".e | to_entries", ".m | to_entries | from_entries", ".e[] | from_entries", "[.e[] | .value]", ".e | from_entries | .a", ".m | with_entries(.value |= .)", ".e | map(.key)"}).Draw(t, "entexpr")
+		c.Gen = "entries_doc"
 	} else if dk < 6 {
 		doc := gen.JSONDoc(t, gen.DocOpts{Depth: 3, Width: 4})
 		c.Doc, c.In = doc.JSON(), "json"
